@@ -37,12 +37,14 @@ META = {
             "k / n / radius / voxel sizes derived from the cloud's own distance spectrum incl. exact hits of the radius and "
             "of cell boundaries on fixed-point clouds, dtype float32/float64, batch shapes where documented); points are "
             "shuffled so that outliers sit at arbitrary positions; hand-made corner clouds first (1..3 points, one voxel, "
-            "nothing retained, #retained <= k), then a FIXED-SEED CORPUS of 306 cases independent of VERIF_SEED (per stream "
+            "nothing retained, #retained <= k), then a FIXED-SEED CORPUS of 817 cases independent of VERIF_SEED (per stream "
             "ord x dtype x kind crossed with: magnitudes 2^-400..2^400 (f32: 2^-40..2^30), exact radius hits / 0 / inf, "
             "duplicates, k >= 17 and N2 > 40, every flag combination, memory layouts cols/rows/transposed/expanded, one "
             "tensor in two roles, mixed-regime batches, RNG extremes, 36 call histories on caller-held tensors with one "
-            "argument varied per call and in-place updates between calls), then seeded cases; quick: 110 knn + 130 nbr + "
-            "130 voxel + 130 knn_filter + 50 random_filter + 120 camera + 50 homo + 14 histories (+20% later calls with the "
+            "argument varied per call, failing calls and in-place updates between calls; pass 2: every call style x grad mode "
+            "/ input type, integer clouds, tuple / int arguments, N, D, k, batch in {1,2,3}, radius and cell size just above / "
+            "below / far from the point spacing; every corpus case also checks that results own their memory), then seeded "
+            "cases; quick: 80 knn + 90 nbr + 90 voxel + 90 knn_filter + 35 random_filter + 80 camera + 35 homo + 10 histories (+20% later calls with the "
             "same shapes), thorough: about 12x that; every case goes to "
             "the exact integer oracle, all but the largest clouds beyond a per-stream budget also to the 192-bit Lean model; "
             "a case is non-trivial when N >= 2 and distinct by (stream, kind, N-bucket, dims, ord, k/n bucket, flags, dtype, "
@@ -255,6 +257,12 @@ def owns_memory(ctx, case, label, outs, inputs, recall):
     except Exception as e:
         ctx.fail(case, f"{label}-output-memory: the same call raises after an earlier result was modified: {type(e).__name__}: {str(e)[:100]}")
         return False
+    for i_, o_ in enumerate(outs):
+        fill = (torch.arange(o_.numel()).reshape(o_.shape) % 2 == 0) if o_.dtype == torch.bool else \
+            (torch.arange(o_.numel(), dtype=torch.float64).reshape(o_.shape) + 3).to(o_.dtype)
+        if not torch.equal(o_, fill):
+            ctx.fail(case, f"{label}-output-memory: a later call overwrote result #{i_} of the earlier call (results live in a shared buffer)")
+            return False
     for a_, b_ in zip(again, originals):
         if a_.shape != b_.shape or not torch.equal(torch.nan_to_num(a_.double(), nan=1.5), torch.nan_to_num(b_.double(), nan=1.5)):
             ctx.fail(case, f"{label}-output-memory: a later identical call returns another result after an earlier result "
@@ -400,7 +408,8 @@ def choose_radius(r: random.Random, K, s, ord_, dtype, exact, mode=None):
             # spacing relative to the threshold: just above / just below a distance that occurs (either sign, far
             # outside the rounding band), and radii far below the smallest / far above the largest spacing
             dj = key_to_radius(sp[j], s, ord_)
-            rad = {"hit+": dj * (1 + 2.0 ** -10), "hit-": dj * (1 - 2.0 ** -10),
+            dl = 2.0 ** -r.choice([10, 13] if dtype != "float64" else [10, 20, 30, 40])   # outside the 256 eps band
+            rad = {"hit+": dj * (1 + dl), "hit-": dj * (1 - dl),
                    "farbelow": key_to_radius(sp[0], s, ord_) * 2.0 ** -30,
                    "farabove": key_to_radius(sp[-1], s, ord_) * 2.0 ** 30}[mode]
             return float(torch.tensor(rad, dtype=U.DT[dtype]))
@@ -511,6 +520,9 @@ def check_knn(ctx: Ctx, case, jobs: Jobs | None = None) -> bool:
         ctx.fail(case, "knn-mutates: knn changed its argument")
         ok = False
     want_shape = tuple(case.get("batch", [])) + (case["N"], k)
+    if vals.dtype != ref.dtype or idx.dtype != torch.int64:
+        ctx.fail(case, f"knn-shape: values {vals.dtype} indices {idx.dtype} for {ref.dtype} clouds")
+        return False
     if tuple(vals.shape) != want_shape or tuple(idx.shape) != want_shape:
         ctx.fail(case, f"knn-shape: values {tuple(vals.shape)} indices {tuple(idx.shape)}, documented {want_shape}")
         return False
@@ -681,7 +693,7 @@ def check_nbr(ctx: Ctx, case, jobs: Jobs | None = None) -> bool:
     if mask.dtype != torch.bool or tuple(mask.shape) != (case["N"],):
         ctx.fail(case, f"nbr-shape: mask {mask.dtype} {tuple(mask.shape)}")
         return False
-    if not U.rows_equal(out, X[mask]) or not U.rows_equal(out2, out):
+    if out.dtype != X.dtype or not U.rows_equal(out, X.detach()[mask]) or not U.rows_equal(out2, out):
         ctx.fail(case, "nbr-select: output is not points[mask] (with and without return_mask)")
         return False
     out_keep, mask_keep = out.clone(), mask.clone()
@@ -883,6 +895,19 @@ def check_voxel(ctx: Ctx, case, jobs: Jobs | None = None) -> bool:
     if tuple(out.shape) != (M, D):
         ctx.fail(case, f"voxel-count: random=True returned {tuple(out.shape)}, the cloud occupies {M} voxels (D={D})")
         return False
+    if out.dtype != X.dtype:
+        ctx.fail(case, f"voxel-member: random=True returned dtype {out.dtype} for a {X.dtype} cloud (rows are not the input points)")
+        return False
+    out_keep = out.clone()
+
+    def VOX_again():
+        if mode == "real":
+            torch.manual_seed(case["data_seed"])
+        with U.observe_rng(mode, script):
+            return [VOX(X, True)]
+    if not owns_memory(ctx, case, "voxel", [out], [X], VOX_again):
+        return False
+    out = out_keep
     members = [set(groups[kk]) for kk in ukeys]
     where = {}
     for i, row in enumerate(X.tolist()):
@@ -961,6 +986,9 @@ def check_knnf(ctx: Ctx, case, jobs: Jobs | None = None) -> bool:
         return False
     if mon.mutations:
         ctx.fail(case, "knnf-mutates: knn_filter changed its argument")
+        return False
+    if out.dtype != x.dtype:
+        ctx.fail(case, f"knnf-shape: dtype {out.dtype} returned for a {x.dtype} cloud")
         return False
     out_keep = out.clone()
     if not owns_memory(ctx, case, "knnf", [out], [x], lambda: [KNNF(x)]):
@@ -1260,6 +1288,9 @@ def check_camera(ctx: Ctx, case, jobs: Jobs | None = None) -> bool:
         return False
     bshape = torch.broadcast_shapes(tuple(case["bp"]), tuple(case["bk"]), tuple(case["be"]) if ext is not None else ())
     n = case["n"]
+    if uv.dtype != T:
+        ctx.fail(case, f"camera-shape: point2pixel returned dtype {uv.dtype} for {T} input")
+        return False
     if tuple(uv.shape) != tuple(bshape) + (n, 2):
         ctx.fail(case, f"camera-shape: point2pixel returned {tuple(uv.shape)}, documented {tuple(bshape) + (n, 2)}")
         return False
@@ -1471,13 +1502,17 @@ def check_homo(ctx: Ctx, case, jobs: Jobs | None = None) -> bool:
     p = prep(p, case)
     try:
         h = P.cart2homo(p).detach()
-        back = P.homo2cart(prep(h, case)).detach()
+        h_in = prep(h, case)
+        back = P.homo2cart(h_in).detach()
     except Exception as e:
         ctx.fail(case, f"homo-raises: cart2homo/homo2cart raise: {type(e).__name__}: {str(e)[:120]}")
         return False
     h_keep, back_keep = h.clone(), back.clone()
-    if not owns_memory(ctx, case, "homo", [h], [p], lambda: [P.cart2homo(p)]) or \
-            not owns_memory(ctx, case, "homo", [back], [h_keep], lambda: [P.homo2cart(h_keep)]):
+    if h.dtype != T or back.dtype != T:
+        ctx.fail(case, f"homo-dtype: cart2homo / homo2cart return {h.dtype} / {back.dtype} for {T} input")
+        return False
+    if not owns_memory(ctx, case, "homo", [back], [h_in], lambda: [P.homo2cart(h_in).detach()]) or \
+            not owns_memory(ctx, case, "homo", [h], [p], lambda: [P.cart2homo(p).detach()]):
         return False
     h, back, p = h_keep, back_keep, p_plain
     if tuple(h.shape) != shape[:-1] + (shape[-1] + 1,) or not torch.equal(h[..., :-1], p) or not bool((h[..., -1] == 1).all()):
@@ -1563,9 +1598,10 @@ def mix_items(rng, c):
     if nb >= 2 and rng.random() < 0.7:
         k0 = rng.randrange(len(U.KINDS))
         c["item_kinds"] = [U.KINDS[(k0 + 2 * b_) % len(U.KINDS)] for b_ in range(nb)]
-        c["item_mags"] = [rng.choice(MAGS[c["dtype"]]) for _ in range(nb)]
+        mg = MAGS.get(c["dtype"], [0])
+        c["item_mags"] = [rng.choice(mg) for _ in range(nb)]
         if rng.random() < 0.5:
-            c["item_mags"][0], c["item_mags"][-1] = MAGS[c["dtype"]][0], MAGS[c["dtype"]][-1]
+            c["item_mags"][0], c["item_mags"][-1] = mg[0], mg[-1]
     elif nb >= 2 and rng.random() < 0.3:
         c["layout"] = "expand"
 
@@ -1591,7 +1627,7 @@ def gen_knn_case(rng, hiN, **over):
     c["alias"] = over.get("alias", rng.random() < 0.12)
     if c["alias"]:
         c["N2"] = c["N"]
-    c["k"] = over["k"](c["N2"]) if "k" in over else pick_k(rng, c["N2"])
+    c["k"] = max(0, min(c["N2"], over["k"](c["N2"]))) if "k" in over else pick_k(rng, c["N2"])
     c["largest"], c["sorted"] = over.get("flags", rng.choice([(False, True)] * 9 + [(True, True)] * 4 + [(False, False)] * 3
                                                              + [(True, False)] * 4))
     c["defaults"] = over.get("defaults", rng.random() < 0.1)
@@ -1648,7 +1684,7 @@ def derive_voxel(rng, c, vd, X64=None, mode_over=None):
             # cell size relative to the point spacing: a point sits just inside / just outside / exactly on a cell boundary
             g = rng.choice(gaps) / rng.choice([1, 1, 2, 3])
             sgn = {"gap+": 1, "gap-": -1, "gap": 0}.get(mode_over, rng.choice([1, -1, 0]))
-            v = f32(g * (1 + sgn * 2.0 ** -10))
+            v = f32(g * (1 + sgn * 2.0 ** -rng.choice([10, 13, 16])))
             if v != 0 and math.isfinite(v) and span / abs(v) < 2.0 ** 40:
                 vox.append(v)
                 continue
@@ -1864,6 +1900,10 @@ def gen_hist_case(rng, nsteps=8):
             if rng.random() < 0.3:          # another function on another object in between
                 k2 = rng.choice(list(objs))
                 steps.append(fresh(rng.choice(["nbr", "voxel", "knnf", "randf"]), k2))
+            if rng.random() < 0.3:          # a call that fails, on the same object, in between
+                spec_b = spec_of(objs[key])
+                steps.append({"stream": "bad", "what": rng.choice(BAD_CALLS), "keep": key, "bump": objs[key]["bumps"],
+                              "obj": dict(spec_b), "more": rng.choice([0, 0, 3]), "radius": rng.choice([None, 1.0]), **spec_b})
             cur = vary(cur, arg, key)
             steps.append(cur)
         # the caller edits the tensor in place, then repeats the very same call
@@ -1873,6 +1913,45 @@ def gen_hist_case(rng, nsteps=8):
             cur["bump2"] = objs[cur["keep2"]]["bumps"]
         steps.append(cur)
     return {"stream": "hist", "steps": steps, "N": 2}
+
+
+BAD_CALLS = ["knnf_k", "knn_k", "randf_num", "voxel_zero", "voxel_long", "nbr_3d", "nbr_pdim"]   # documented checks / k range
+
+
+def check_bad(ctx: Ctx, case, jobs: Jobs | None = None) -> bool:
+    """ERROR PATHS ARE ATOMIC: an invalid call on a caller-held tensor (it should raise; some raise late, after work has been
+    done) must leave the tensor bit-identical; the calls after it in the history are checked as usual"""
+    P = pp()
+    X = kept(case)
+    N, D = X.shape
+    before = X.clone()
+    what = case["what"]
+    try:
+        if what == "knnf_k":
+            P.knn_filter(X, k=N + case.get("more", 0), radius=case.get("radius"))
+        elif what == "knn_k":
+            P.knn(X, X, k=N + 1)
+        elif what == "randf_num":
+            P.random_filter(X, N + 1)
+        elif what == "voxel_zero":
+            P.voxel_filter(X, [1.0] * (case["pdim"] - 1) + [0.0])
+        elif what == "voxel_long":
+            P.voxel_filter(X, [1.0] * (D + 1))
+        elif what == "nbr_3d":
+            P.nbr_filter(X[None], 1, 1.0)
+        elif what == "nbr_pdim":
+            P.nbr_filter(X, 1, 1.0, pdim=D + 1)
+        elif what == "knn_shape":
+            P.knn(X, torch.cat([X, X], -1), k=1)
+        elif what == "knnf_ord":
+            P.knn_filter(X, k=0, ord="no-such-norm")
+        ctx.count("hist.bad-call-did-not-raise")
+    except Exception:
+        ctx.count("hist.bad-call-raised")
+    if X.shape != before.shape or not torch.equal(X, before):
+        ctx.fail(case, f"atomic-{what}: a call that fails ({what}) left the caller's tensor modified")
+        return False
+    return True
 
 
 def check_hist(ctx: Ctx, case, jobs: Jobs | None = None) -> bool:
@@ -1942,13 +2021,13 @@ def gen_homo_case(rng, **over):
 
 
 CHECKS = {"knn": check_knn, "nbr": check_nbr, "voxel": check_voxel, "knnf": check_knnf, "randf": check_randf,
-          "camera": check_camera, "homo": check_homo, "hist": check_hist}
+          "camera": check_camera, "homo": check_homo, "hist": check_hist, "bad": check_bad}
 
 
 def signature(c):
     st = c["stream"]
     if st == "hist":
-        return ("hist", tuple((q["stream"], q["keep"], q.get("bump", 0)) for q in c["steps"]))
+        return ("hist", tuple((q["stream"], q["keep"], q.get("bump", 0), q.get("what")) for q in c["steps"]))
     if st in ("camera", "homo"):
         return (st, c["dtype"], tuple(c.get("bp", c.get("shape", []))), tuple(c.get("bk", [])), c.get("ext"), c.get("general_K"),
                 c["data_seed"] % 97)
@@ -2007,9 +2086,9 @@ def run(ctx: Ctx):
     torch.set_num_threads(2)
     jobs = Jobs()
     hiN = 300
-    plan = [("knn", gen_knn_case, ctx.pick(110, 1400)), ("nbr", gen_nbr_case, ctx.pick(130, 1600)),
-            ("voxel", gen_voxel_case, ctx.pick(130, 1600)), ("knnf", gen_knnf_case, ctx.pick(130, 1600)),
-            ("randf", gen_randf_case, ctx.pick(50, 600))]
+    plan = [("knn", gen_knn_case, ctx.pick(80, 1400)), ("nbr", gen_nbr_case, ctx.pick(90, 1600)),
+            ("voxel", gen_voxel_case, ctx.pick(90, 1600)), ("knnf", gen_knnf_case, ctx.pick(90, 1600)),
+            ("randf", gen_randf_case, ctx.pick(35, 600))]
     big_budget = {"knn": ctx.pick(1, 20), "nbr": ctx.pick(1, 20), "voxel": ctx.pick(2, 30), "knnf": ctx.pick(1, 20), "randf": 1000}
     # hand-made corner cases first (docstring clouds with the outliers moved, 1-point clouds, single voxel, ...)
     for c in corner_cases():
@@ -2018,7 +2097,7 @@ def run(ctx: Ctx):
     for c in corpus_cases():
         ctx.count("corpus")
         run_case(ctx, c, jobs if c.get("N", 0) <= 70 and c.get("N2", 0) <= 70 else None)
-    for _ in range(ctx.pick(14, 160)):
+    for _ in range(ctx.pick(10, 160)):
         run_case(ctx, gen_hist_case(rng, rng.choice([5, 8, 11])), jobs)
     for name, gen, n in plan:
         nbig = 0
@@ -2031,9 +2110,9 @@ def run(ctx: Ctx):
                     run_case(ctx, c, None)
                     continue
             run_case(ctx, c, jobs)
-    for _ in range(ctx.pick(120, 1500)):
+    for _ in range(ctx.pick(80, 1500)):
         run_case(ctx, gen_camera_case(rng), jobs)
-    for _ in range(ctx.pick(50, 600)):
+    for _ in range(ctx.pick(35, 600)):
         run_case(ctx, gen_homo_case(rng), jobs)
     jobs.flush(ctx)
 
@@ -2124,6 +2203,96 @@ def corpus_cases():
     # histories
     for _ in range(36):
         out.append(gen_hist_case(r, r.choice([6, 9, 12])))
+    # ---- pass 2 -------------------------------------------------------------------------------------------------
+    # (10)/(12)/(13): every call style x every grad mode / input type, crossed with streams, batches, flags
+    gms = [None, "req", "nograd", "inference", "graph", "param"]
+    for si, style in enumerate(["kw", "min", "pos", "mix", "kwreq"]):
+        for gi, gm in enumerate(gms):
+            it += 1
+            dtp = dts[(si + gi) % 2]
+            q = dict(style=style, gmode=gm, dtype=dtp, mag_exp=0, layout=None)
+            out.append(gen_knn_case(r, 30, N=[4, 9][it % 2], N2=[7, 12][it % 2], ord=ORDS[it % 3], alias=False, defaults=False,
+                                    flags=[(False, True), (True, True), (False, False), (True, False)][it % 4],
+                                    batch=[[], [2], [3]][it % 3], **q))
+            out.append(gen_nbr_case(r, 30, N=[5, 11, 3][it % 3], ord=ORDS[(it + 1) % 3], kind=kinds[it % 6],
+                                    radius_mode=["hit", "mid", "hit+", "hit-"][it % 4], **q))
+            out.append(gen_knnf_case(r, 30, N=[6, 10, 4][it % 3], ord=ORDS[(it + 2) % 3], with_radius=bool(it % 2),
+                                     batch=[[2], [], [3]][it % 3], kind=kinds[(it + 3) % 6], **q))
+            out.append(gen_voxel_case(r, 30, N=[7, 12, 2][it % 3], random=bool((it // 2) % 2), rng_mode=["hi", "lo", "script"][it % 3],
+                                      vox_form=["list", "tuple"][it % 2], kind=kinds[(it + 1) % 6], **q))
+            out.append(gen_randf_case(r, 30, N=[5, 9][it % 2], batch=[[], [2]][it % 2], rng_mode=["hi", "script", "lo"][it % 3], **q))
+            out.append(gen_camera_case(r, style=style, gmode=gm, dtype=dtp, span=0, layout=None, ext=bool(it % 2),
+                                       general_K=bool((it // 3) % 2)))
+            out.append(gen_homo_case(r, dtype=dtp, gmode=gm, layout=None))
+    # python ints where the value is integral; integer-dtype clouds for the two selecting functions
+    for dtp in dts:
+        for kind in ["lattice", "line", "dupes"]:
+            it += 1
+            out.append(gen_nbr_case(r, 30, kind=kind, dtype=dtp, mag_exp=0, radius_mode="hit", N=9, style=STYLES[it % 6]))
+            out.append(gen_knnf_case(r, 30, kind=kind, dtype=dtp, mag_exp=0, radius_mode="hit", with_radius=True, N=9, k=(lambda n: 2),
+                                     style=STYLES[(it + 2) % 6]))
+            out.append(gen_voxel_case(r, 30, kind=kind, dtype=dtp, mag_exp=0, vox_mode=0.2, N=11, random=bool(it % 2), rng_mode="hi"))
+    for c_ in out[-18:]:
+        c_["int_scalars"] = True
+    for idt in ["int64", "int32"]:
+        for kind in ["lattice", "blobs", "dupes", "uniform"]:
+            it += 1
+            out.append(gen_randf_case(r, 30, dtype=idt, kind=kind, N=[3, 8, 16, 5][it % 4], batch=[[], [2], [3], []][it % 4],
+                                      rng_mode=["hi", "script", "real", "lo"][it % 4], layout=[None, "rows", "T", "cols"][it % 4]))
+            out.append(gen_voxel_case(r, 30, dtype=idt, kind=kind, N=[4, 9, 17, 6][it % 4], random=True,
+                                      rng_mode=["hi", "lo", "script", "hi"][it % 4], vox_mode=[0.2, 0.6, 0.2, "gap-"][it % 4]))
+    # (16) specific sizes: N, D, k in {1,2,3}, D == 3 == N == batch; sizes next to powers of two; primes
+    for N in (1, 2, 3):
+        for D in (1, 2, 3):
+            for var in range(3):
+                it += 1
+                pd, ex = [(D, 0), (max(1, D - 1), D - max(1, D - 1)), (1, D - 1)][var]
+                bt = [[], [3], [3, 3], [1], [2]][it % 5]
+                dtp = dts[it % 2]
+                q = dict(N=N, pdim=pd, extra=ex, dtype=dtp, mag_exp=0, kind=kinds[it % 6], layout=None)
+                out.append(gen_knn_case(r, 30, N2=[1, 2, 3][(it + var) % 3], batch=bt, alias=False, defaults=False, ord=ORDS[it % 3],
+                                        flags=[(False, True), (True, True), (True, False)][it % 3],
+                                        k=(lambda n, it=it: min(n, [1, 2, 3, 0][it % 4])), **{**q, "pdim": D, "extra": 0}))
+                out.append(gen_nbr_case(r, 30, ord=ORDS[(it + 1) % 3], radius_mode=["hit", "mid", "zero", "above"][it % 4], **q))
+                out.append(gen_knnf_case(r, 30, ord=ORDS[(it + 2) % 3], with_radius=(var == 1), batch=bt if var != 1 else [],
+                                         k=(lambda n, it=it: min(max(n - 1, 0), [0, 1, 2][it % 3])), **q))
+                out.append(gen_voxel_case(r, 30, random=(var == 2), rng_mode="hi", vox_mode=[0.2, "gap+", "gap-"][var], **q))
+                out.append(gen_randf_case(r, 30, batch=bt, num=(lambda n, it=it: min(n, [1, 2, 3, 0][it % 4])), rng_mode=["hi", "script"][it % 2],
+                                          **{k_: v_ for k_, v_ in q.items() if k_ != "extra"}))
+    for nn_ in [7, 13, 31, 32, 33, 63, 64, 65, 127, 128, 129, 257]:
+        it += 1
+        out.append(gen_knn_case(r, 300, N=[3, 5][it % 2], N2=nn_, batch=[], alias=False, defaults=False, dtype=dts[it % 2], mag_exp=0,
+                                kind=["gauss", "uniform"][it % 2], flags=[(False, True), (True, True)][it % 2],
+                                k=(lambda n, it=it: [n, n - 1, 17, 1][it % 4]), layout=None))
+        out.append(gen_knnf_case(r, 300, N=nn_, with_radius=bool(it % 2), batch=[], dtype=dts[it % 2], mag_exp=0,
+                                 kind=["gauss", "blobs"][it % 2], k=(lambda n, it=it: [1, 16, 17, n - 1][it % 4]), layout=None))
+    for n_ in (1, 2, 3):
+        for shp in ([3], [3, 3], [2], [1]):
+            for dtp in dts:
+                it += 1
+                out.append(gen_camera_case(r, dtype=dtp, n=n_, bp=shp, bk=[shp, shp[-1:], []][it % 3], be=[shp, [], shp[-1:]][it % 3],
+                                           ext=bool(it % 2), span=0, layout=None, style=STYLES[it % 6]))
+    # (18) radius / cell size relative to the spacing: just above / below an occurring distance, far below / far above
+    for mode in ["hit+", "hit-", "farbelow", "farabove"]:
+        for o in ORDS:
+            for dtp in dts:
+                it += 1
+                out.append(gen_nbr_case(r, 40, kind=kinds[it % 6], ord=o, dtype=dtp, N=[6, 15, 28][it % 3], radius_mode=mode,
+                                        mag_exp=[0, MAGS[dtp][0], MAGS[dtp][-1]][it % 3]))
+                out.append(gen_knnf_case(r, 40, kind=kinds[(it + 2) % 6], ord=o, dtype=dtp, N=[7, 14, 25][it % 3], with_radius=True,
+                                         radius_mode=mode, k=(lambda n, it=it: [1, 2, 5][it % 3]), mag_exp=0))
+    for vm in ["gap+", "gap-", "gap"]:
+        for dtp in dts:
+            for rnd_ in (False, True):
+                for kind in ["lattice", "gauss", "blobs"]:
+                    it += 1
+                    out.append(gen_voxel_case(r, 40, kind=kind, dtype=dtp, N=[5, 12, 26][it % 3], vox_mode=vm, random=rnd_,
+                                              rng_mode=["hi", "lo"][it % 2], mag_exp=0))
+    for c_ in out:
+        c_["own_check"] = True      # (15) every corpus case also checks that results own their memory
+        for st_ in c_.get("steps", []):
+            st_["own_check"] = True
+    random.Random(7).shuffle(out)   # (17) streams / dtypes / objects interleaved in one fixed order
     return out
 
 
